@@ -86,7 +86,70 @@ func findRepoPath(dir string) (string, error) {
 // GetChangedFiles will return a list of files that have been changed in the
 // repository. This should only be called when required, i.e. a .git directory
 // has already been detected.
+// A submodule is a repository with a status of its own, and the status of the
+// containing repository says nothing about the files inside of it: the files
+// changed in submodules that are checked out are included (recursively), named
+// relative to dir like all other files.
 func GetChangedFiles(dir string) ([]string, error) {
+	changed, err := getChangedFiles(dir)
+	if err != nil {
+		return nil, err
+	}
+
+	submodules, err := getSubmodulePaths(dir)
+	if err != nil {
+		return nil, err
+	}
+
+	for _, submodule := range submodules {
+		subChanged, err := GetChangedFiles(filepath.Join(dir, filepath.FromSlash(submodule)))
+		if err != nil {
+			return nil, fmt.Errorf("submodule %s: %w", submodule, err)
+		}
+
+		for _, file := range subChanged {
+			changed = append(changed, submodule+"/"+file)
+		}
+	}
+
+	return changed, nil
+}
+
+// getSubmodulePaths returns the paths (relative to dir, slash separated) of the
+// submodules of the repository at dir that are checked out.
+func getSubmodulePaths(dir string) ([]string, error) {
+	repo, err := git.PlainOpen(dir)
+	if err != nil {
+		return nil, fmt.Errorf("failed to open repository: %w", err)
+	}
+
+	wt, err := repo.Worktree()
+	if err != nil {
+		return nil, fmt.Errorf("failed to get worktree: %w", err)
+	}
+
+	submodules, err := wt.Submodules()
+	if err != nil {
+		return nil, fmt.Errorf("failed to get submodules: %w", err)
+	}
+
+	paths := make([]string, 0, len(submodules))
+
+	for _, submodule := range submodules {
+		subPath := submodule.Config().Path
+
+		// nothing is checked out where there is no .git entry: no files to change
+		if _, err := os.Stat(filepath.Join(dir, filepath.FromSlash(subPath), ".git")); err == nil {
+			paths = append(paths, subPath)
+		}
+	}
+
+	return paths, nil
+}
+
+// getChangedFiles returns the files that have been changed in the repository at
+// dir, not looking into submodules.
+func getChangedFiles(dir string) ([]string, error) {
 	repo, err := git.PlainOpen(dir)
 	if err != nil {
 		return nil, fmt.Errorf("failed to open repository: %w", err)
